@@ -2,8 +2,12 @@
 //! vharness — correspondence / search harness for the Lean model of anoncreds-v2-rs.
 //!   vharness gen <PROPERTY> <tier> <seed> <outdir>    run the real code, write ops.txt / impl.txt / gen.json
 //!   vharness judge <outdir>                           compare model.txt with impl.txt → judge.json
+mod c03;
 mod claims;
 mod common;
+mod dbg;
+mod pres;
+mod sigs;
 mod issuer;
 mod vb20;
 
@@ -22,6 +26,8 @@ fn gen(prop: &str, tier: &str, seed: u64, out: &str) {
         }
         "C14" => vb20::gen_c14(&mut em, &mut rng),
         "C13" => issuer::gen_c13(&mut em, &mut rng),
+        "C03" => c03::gen_c03(&mut em, &mut rng),
+        "C17" => sigs::gen_c17(&mut em, &mut rng),
         _ => {
             eprintln!("unknown property {}", prop);
             std::process::exit(2);
@@ -66,6 +72,10 @@ fn canon_model_line(l: &str) -> String {
             }
             "g1" => match sc_from_hex(arg) {
                 Some(s) => out.push_str(&hex::encode((blsful::inner_types::G1Projective::GENERATOR * s).to_compressed())),
+                None => out.push_str("<bad-scalar>"),
+            },
+            "g2" => match sc_from_hex(arg) {
+                Some(s) => out.push_str(&hex::encode((G2Projective::GENERATOR * s).to_compressed())),
                 None => out.push_str("<bad-scalar>"),
             },
             "g1mul" => {
@@ -119,6 +129,7 @@ fn main() {
     match a.get(1).map(|s| s.as_str()) {
         Some("gen") if a.len() == 6 => gen(&a[2], &a[3], a[4].parse().expect("seed"), &a[5]),
         Some("judge") if a.len() == 3 => judge(&a[2]),
+        Some("dbg") => dbg::run(),
         _ => {
             eprintln!("usage: vharness gen <PROP> <tier> <seed> <outdir> | judge <outdir>");
             std::process::exit(2);
